@@ -4,7 +4,6 @@ import (
 	"fmt"
 	"sort"
 	"strings"
-	"testing/synctest"
 
 	"github.com/NethermindEth/juno/core"
 	"github.com/NethermindEth/juno/core/felt"
@@ -68,7 +67,9 @@ func (w *world) observeChain() {
 		if height < 0 {
 			c.Probe("revert_to_empty_chain")
 		}
-		w.checkRevertJustified(x)
+		if !w.noSyncOracle {
+			w.checkRevertJustified(x)
+		}
 	default:
 		c.Fail("head_jump", "height", "node height went from %d to %d across one commit", prev, height)
 	}
@@ -118,9 +119,6 @@ func (w *world) observeChain() {
 	case gotReorg != nil:
 		c.Fail("reorg_notification", "unexpected", "reorg notification start=%d end=%d without a store that follows reverts (pending reverted run: %s)",
 			gotReorg.StartBlockNum, gotReorg.EndBlockNum, blockList(w.revertRun))
-	}
-	if w.onObserve != nil {
-		w.onObserve()
 	}
 }
 
@@ -230,6 +228,14 @@ func (w *world) checkRevertJustified(x stored) {
 	key := "no_contradicting_response"
 	for _, d := range w.deliveries {
 		if d.step > x.fetched {
+			if d.kind == "block" && int(d.n) == n && strings.HasPrefix(d.note, "corrupt:") && (strings.HasPrefix(d.note, "corrupt:hash") || strings.HasSuffix(d.note, "_rehash")) {
+				// a copy of X with a different header hash was served after X: the only place where
+				// the node compares a served block with its own without verifying it first is revertTask
+				key = "contradicted_only_by_corrupt_block:" + strings.TrimPrefix(d.note, "corrupt:")
+			}
+			continue
+		}
+		if strings.HasPrefix(key, "contradicted_only_by_corrupt_block") {
 			continue
 		}
 		if (d.kind == "block" && n < len(d.ver.chain) && d.ver.chain[n] != x.b) || (d.kind == "latest" && d.note != "" && !d.ver.has(x.b)) {
@@ -313,7 +319,7 @@ func (w *world) tail() {
 		c.Probe("tail_starts_diverged")
 	}
 	for i := 0; ; i++ {
-		synctest.Wait()
+		ps := w.settle()
 		w.observeChain()
 		if w.converged() {
 			w.logf("tail: converged after %d steps", i)
@@ -328,10 +334,12 @@ func (w *world) tail() {
 			case len(w.local) > len(w.cur.chain):
 				key = "ahead"
 			}
+			if len(w.cur.chain) == 1 {
+				key += ":source_tip_at_height_0"
+			}
 			c.Fail("liveness", key, "fault-free tail: after %d fair steps the node holds %d blocks (tip %s) while the stable source chain v%d has %d (tip %s)",
 				i, len(w.local), tipStr(w.localTip()), w.cur.id, len(w.cur.chain), tipStr(w.cur.tip()))
 		}
-		ps := w.sortedParked()
 		w.fairStep(ps)
 		w.step++
 	}
@@ -360,7 +368,7 @@ func (w *world) finish() {
 		c.Probe("revert_observed")
 	}
 	if w.maxParkedBlock >= 2 {
-		c.Probe("parallel_fetchers")
+		c.Probe("concurrent_block_requests")
 	}
 	if len(w.tampered) > 0 {
 		c.Probe("corrupt_block_rejected")
@@ -387,9 +395,9 @@ func C06(c *sim.Ctx) {
 		defer w.shutdown()
 		w.startNode()
 		for w.step = 1; w.step <= cfg.steps; w.step++ {
-			synctest.Wait()
+			ps := w.settle()
 			w.observeChain()
-			w.choose("sched", w.c06Options(w.sortedParked()))
+			w.choose("sched", w.c06Options(ps))
 		}
 		w.tail()
 	}()
